@@ -6,7 +6,7 @@ package engine
 // action may START after the first non-nil observation.
 
 import (
-	_ "context"
+	"context"
 	"errors"
 	"fmt"
 	"testing"
@@ -84,6 +84,94 @@ func TestReplaySearchCtx(t *testing.T) {
 			}
 			if len(f.lateAt) > 0 {
 				t.Fatalf("CONFIRMED: a rule action started after cancellation had been observed (at Err() calls %v): %s", f.lateAt, where)
+			}
+		}
+	}
+}
+
+// ---- cancellation INSIDE a condition or an action (obligation ExecuteWithContext#ensures.nilmeanslive) ----
+// A real cancellable context; the fact's methods C() (used in conditions) and A() (first/last statement of actions) count
+// their calls and cancel the context at the n-th call, n = 1..all. Property: once the context is cancelled during the run,
+// ExecuteWithContext returns an error wrapping context.Canceled - wherever the cancellation fell, also inside the last
+// condition of the final cycle or inside an action that calls Complete() - and no action STARTS after the cancellation.
+
+type replayInsideFact struct {
+	X, Y      int
+	calls     int
+	cancelAt  int
+	cancel    func()
+	cancelled bool
+	late      []int
+}
+
+func (f *replayInsideFact) tick() {
+	f.calls++
+	if f.calls == f.cancelAt {
+		f.cancel()
+		f.cancelled = true
+	}
+}
+
+// C is used inside conditions.
+func (f *replayInsideFact) C() bool { f.tick(); return true }
+
+// A is the first statement of an action: an action that starts after the cancellation is recorded.
+func (f *replayInsideFact) A() {
+	if f.cancelled {
+		f.late = append(f.late, f.calls+1)
+	}
+	f.tick()
+}
+
+// Z is a later statement of an action (the action is already running: not a late start).
+func (f *replayInsideFact) Z() { f.tick() }
+
+func TestReplaySearchCtxInside(t *testing.T) {
+	rulesets := []string{
+		`rule R1 "one" { when F.C() && F.X < 2 then F.A(); F.X = F.X + 1; }`,
+		`rule R1 "one" { when F.C() && F.X < 1 then F.A(); F.X = F.X + 1; F.Z(); }`,
+		`rule R1 "done" { when F.C() && F.X < 1 then F.A(); F.X = F.X + 1; F.Z(); Complete(); }`,
+		`rule R1 "a" salience 2 { when F.C() && F.X < 1 then F.A(); F.X = F.X + 1; }
+		 rule R2 "b" salience 1 { when F.C() && F.Y < 1 then F.A(); F.Y = F.Y + 1; F.Z(); Complete(); }`,
+		`rule R1 "never" { when F.C() && F.X > 5 then F.A(); F.X = 0; }`,
+		`rule R1 "a" salience 2 { when F.X < 1 && F.C() then F.A(); F.X = F.X + 1; }
+		 rule R2 "never" salience 1 { when F.C() && F.Y > 5 then F.A(); F.Y = 0; }`,
+	}
+	for ri, grl := range rulesets {
+		lib := ast.NewKnowledgeLibrary()
+		if err := builder.NewRuleBuilder(lib).BuildRuleFromResource("K", "1", pkg.NewBytesResource([]byte(grl))); err != nil {
+			t.Fatalf("build: %v", err)
+		}
+		total := 1
+		for n := 0; n <= total; n++ {
+			kb, err := lib.NewKnowledgeBaseInstance("K", "1")
+			if err != nil {
+				t.Fatal(err)
+			}
+			ctx, cancel := context.WithCancel(context.Background())
+			f := &replayInsideFact{cancelAt: n, cancel: cancel}
+			dctx := ast.NewDataContext()
+			dctx.Add("F", f)
+			e := NewGruleEngine()
+			e.MaxCycle = 20
+			res := e.ExecuteWithContext(ctx, dctx, kb)
+			cancel()
+			if n == 0 {
+				if res != nil {
+					t.Fatalf("rule set #%d does not run to its end without cancellation: %v", ri, res)
+				}
+				total = f.calls // how many cancellation points the run has
+				continue
+			}
+			where := fmt.Sprintf("rule set #%d, context cancelled inside fact-method call #%d of the run (%d calls made, final X=%d Y=%d): %s", ri, n, f.calls, f.X, f.Y, grl)
+			if f.cancelled && res == nil {
+				t.Fatalf("CONFIRMED: ExecuteWithContext returned nil although the context was cancelled during the run: %s", where)
+			}
+			if f.cancelled && !errors.Is(res, context.Canceled) {
+				t.Fatalf("CONFIRMED: ExecuteWithContext returned %q which does not wrap the context's error: %s", res, where)
+			}
+			if len(f.late) > 0 {
+				t.Fatalf("CONFIRMED: a rule action started after the context had been cancelled (fact-method calls %v): %s", f.late, where)
 			}
 		}
 	}
